@@ -302,3 +302,52 @@ Theorem C18_repaired_never_struck :
     In o (routs (rrun r evs)) -> In o (routs r) \/ exists s op, o = snd (seq_op s op).
 Proof. exact repaired_never_struck. Qed.
 Print Assumptions C18_repaired_never_struck.
+
+(* ---- the wake-up half of the repaired call_soon_threadsafe (Queue/Wakeup.v): the foreign thread
+   does [inbox.append(handle); _write_to_self()], the loop thread [drain; select (blocks unless
+   something is ready or the self-pipe is readable; reads the pipe); run].  A schedule is ANY list
+   of tokens [TLoop | TForeign i | TStutter] over any number n of foreign threads; the loop may be
+   at either point of its iteration and the pipe in either state when the submissions begin.
+   [WInv] = {ran ++ rdy ++ inbox = order of the appends; no duplicates; a handle is in that history
+   iff its thread has appended; every handle in the inbox has a pending wake-up (pipe readable, or
+   the loop about to drain, or its thread still before its write)}. *)
+Close Scope Z_scope.
+Open Scope nat_scope.
+From Asynkit Require Import Queue.Wakeup Queue.WakeupProofs.
+
+Theorem C18_wakeup_invariant :
+  forall (n : nat) (start : lpc) (w : bool) (ts : list tok), WInv (wrun (winit n start w) ts).
+Proof. exact wake_inv. Qed.
+Print Assumptions C18_wakeup_invariant.
+
+(* nothing is stranded: a loop blocked in select() with no submission in progress has an empty
+   inbox and has run every submitted callback *)
+Theorem C18_no_stranded_callback :
+  forall s : wst, WInv s -> all_done s = true -> blocked s = true ->
+    inbox s = [] /\ rdy s = [] /\ ran s = hist s /\ forall i, i < length (fts s) -> In i (ran s).
+Proof. exact (@blocked_means_collected). Qed.
+Print Assumptions C18_no_stranded_callback.
+
+(* liveness: two loop iterations after the last submission completed, every callback has run *)
+Theorem C18_all_run_within_two_iterations :
+  forall s : wst, WInv s -> all_done s = true ->
+    let s' := wrun s [TLoop; TLoop; TLoop; TLoop] in
+    forall i, i < length (fts s) -> In i (ran s').
+Proof. exact (@all_run_within_four). Qed.
+Print Assumptions C18_all_run_within_two_iterations.
+
+(* exactly once, in submission order *)
+Theorem C18_exactly_once_in_order :
+  forall (n : nat) (start : lpc) (w : bool) (ts : list tok),
+    let s := wrun (winit n start w) ts in
+    ran s ++ rdy s ++ inbox s = hist s /\ NoDup (ran s) /\ forall i, In i (ran s) -> started s i.
+Proof. exact exactly_once_fifo. Qed.
+Print Assumptions C18_exactly_once_in_order.
+
+(* deciding BEFORE the append whether a wake-up is needed (from the emptiness of the inbox) strands
+   a callback: both submissions complete, the loop blocked in select(), handle 1 still in the inbox *)
+Theorem C18_check_then_act_refuted :
+  let s := wrun2 (winit2 2 LDrain false) bad_schedule in
+  fts2 s = [GDone; GDone] /\ blocked (base2 s) = true /\ inbox (base2 s) = [1] /\ ran (base2 s) = [0].
+Proof. exact check_then_act_refuted. Qed.
+Print Assumptions C18_check_then_act_refuted.
